@@ -225,7 +225,8 @@ def build_federated(case):
   raws = [make_examples(ids, case['features']) for ids in client_ids(case['sizes'])]
   mapping = {}
   for j in case['insert_order']:
-    mapping[b'c%03d' % j] = raws[j]
+    # (every other id ends in a NUL byte: a client id is arbitrary bytes)
+    mapping[b'c%03d' % j + (b'\x00' if j % 2 else b'')] = raws[j]
   if case.get('prep_via', 'ctor') == 'ctor':
     if not case['preps'] and not case.get('explicit_prep', False):
       fd = fedjax.InMemoryFederatedData(mapping)
@@ -1046,7 +1047,7 @@ def build_shuffled_fd(case):
   """(FederatedData, [client ids in the view], {id: size}, cleanup)."""
   import os, shutil, tempfile
   sizes = case['sizes']
-  ids = [b'c%03d' % j for j in range(len(sizes))]
+  ids = [b'c%03d' % j + (b'\x00' if j % 2 else b'') for j in range(len(sizes))]
   mapping = {i: {'id': np.arange(j * 100 + 1, j * 100 + 1 + sz, dtype=np.int32)}
              for j, (i, sz) in enumerate(zip(ids, sizes))}
   impl = case['impl']
@@ -1098,7 +1099,7 @@ def run_shuffled_clients(case):
         require(cid in size_of, 'shuffled_clients:unknown_client', f'{cid!r}')
         require(len(ds) == size_of[cid] and
                 np.array_equal(ds.all_examples()['id'][:1],
-                               np.arange(int(cid[1:]) * 100 + 1, int(cid[1:]) * 100 + 2)[:size_of[cid]]),
+                               np.arange(int(cid[1:4]) * 100 + 1, int(cid[1:4]) * 100 + 2)[:size_of[cid]]),
                 'shuffled_clients:wrong_dataset', f'{cid!r}: {len(ds)} examples')
         order.append(cid)
       for q in range(passes):
